@@ -416,7 +416,7 @@ def run(ctx):
             if mm is None:
                 ctx.breaks.append({"what": "correspondence evaluation C04_cases did not compile", "detail": (out + err)[-3000:]})
                 break
-            for k in mm:
+            for k in mm[:3]:                 # show the model's answer for the first few only
                 c = part[k]
                 rc2, out2, _ = vlib.coq_eval("C04_one_%d" % os.getpid(), "From PGV Require Import C04.Model.\nOpen Scope string_scope.\n"
                                              "Definition c := %s.\nEval vm_compute in run_script (fst c).\n" % to_coq(c, c["_res"]))
